@@ -96,6 +96,7 @@ struct Node {
     next_tick: u64,
     filters: Vec<[u8; 512]>,
     byz_filter: [u8; 512],
+    byz_ids: Vec<ntp_proto::v5::ServerId>,
     last_logged: (u8, [u8; 4]),
     ticks: u64,
 }
@@ -145,6 +146,18 @@ fn check_usable(node: &Node, si: usize, u0: usize, what: &str) {
         node.idx, si, slot.target, slot.m_stratum, slot.m_refid, node.local_stratum, after.reach, after.bloom.filled
     );
     simkit::oracle("C33");
+    for r in &reasons {
+        probe(match *r {
+            "stratum-not-below-local" => "model-rejects:stratum-not-below-local",
+            "unreachable" => "model-rejects:unreachable",
+            "is-this-daemon" => "model-rejects:is-this-daemon",
+            "bloom-filter-contains-our-id" => "model-rejects:bloom-filter-contains-our-id",
+            _ => "model-rejects:reports-our-address-as-reference-id",
+        });
+    }
+    if reasons.is_empty() {
+        probe("model-accepts");
+    }
     if u && !reasons.is_empty() {
         let clause = match reasons[0] {
             "stratum-not-below-local" => "usable-despite-stratum-not-below-local",
@@ -292,13 +305,15 @@ fn serve(nodes: &mut [Node], net: &mut SimNet<Meta>, d: &Datagram<Meta>, ti: usi
                 }
             }
             let version = t.filters.len() - 1;
-            let bound = d.mutation.is_none();
+            // whatever the request said, the answer echoes it; only intact exchanges count for the completeness check
+            let bound = true;
+            let intact = d.mutation.is_none();
             net.send(
                 now,
                 d.to,
                 d.from,
                 resp,
-                Meta { kind: Kind::Resp { node: rn, slot: rs, seq, bound, filter_version: if bound { Some((ti, version)) } else { None }, tag: "real-server" } },
+                Meta { kind: Kind::Resp { node: rn, slot: rs, seq, bound, filter_version: if intact { Some((ti, version)) } else { None }, tag: "real-server" } },
             );
         }
         Role::Byzantine(b) => {
@@ -367,7 +382,8 @@ fn serve(nodes: &mut [Node], net: &mut SimNet<Meta>, d: &Datagram<Meta>, ti: usi
                 }
                 out.extend(wire::ef(wire::EF_DRAFT_ID, wire::DRAFT, 4, true));
             }
-            net.send(now, d.to, d.from, out, Meta { kind: Kind::Resp { node: rn, slot: rs, seq, bound, filter_version: None, tag } });
+            let faithful = matches!(b, Byz::Normal | Byz::RefidLoop | Byz::HighStratum);
+            net.send(now, d.to, d.from, out, Meta { kind: Kind::Resp { node: rn, slot: rs, seq, bound, filter_version: if faithful { Some((ti, 0)) } else { None }, tag } });
             if let Some(o2) = second {
                 net.send(now + 2_000_000, d.to, d.from, o2, Meta { kind: Kind::Resp { node: rn, slot: rs, seq, bound, filter_version: None, tag: "byz-unsolicited-second-answer" } });
             }
@@ -451,7 +467,19 @@ fn deliver(nodes: &mut [Node], d: Datagram<Meta>, ni: usize) {
                     after.bloom.chunk_size,
                     after.bloom.bytes.iter().zip(want.iter()).filter(|(a, b)| a != b).count()
                 );
-                if ver > 0 {
+                if matches!(nodes[sn].role, Role::Byzantine(_)) {
+                    let snap = nodes[ni].mgr.verif_source_snapshot(slot.id);
+                    if let Some(Some(f)) = snap.map(|s| s.bloom_filter) {
+                        check!(
+                            "C34",
+                            "no-false-negative-for-added-id",
+                            nodes[sn].byz_ids.iter().all(|id| f.contains_id(id)),
+                            "node{ni} src{si}: the complete filter fetched from node{sn} misses one of the {} ids it was built from",
+                            nodes[sn].byz_ids.len()
+                        );
+                        probe("fetched-filter-membership-checked");
+                    }
+                } else if ver > 0 {
                     let snap = nodes[ni].mgr.verif_source_snapshot(slot.id);
                     if let Some(Some(f)) = snap.map(|s| s.bloom_filter) {
                         let sid = nodes[sn].mgr.verif_server_id();
@@ -541,7 +569,7 @@ pub fn run_daemon() {
         netcfg.truncate_p = 0.0;
         netcfg.extend_p = 0.0;
     }
-    let horizon_s = 60 + choose("cfg.horizon", 500);
+    let horizon_s = 30 + choose("cfg.horizon", 220);
     ev!("cfg daemon-world clean={clean} daemons={ndaemons} byz={nbyz} horizon={horizon_s}s focus={focus}");
 
     exec::block_on(async move {
@@ -580,13 +608,24 @@ pub fn run_daemon() {
                 accepted_versions: vec![NtpVersion::V3, NtpVersion::V4, NtpVersion::V5],
             };
             let server = mgr.new_server(scfg, clock.clone(), KeySetProvider::new(1).get());
-            let mut byz_filter = [0u8; 512];
-            let mut r = simkit::sub_rng("cfg.byzfilter");
-            for _ in 0..40 {
-                let b = (r.next_u64() % 4096) as usize;
-                byz_filter[b / 8] |= 1 << (b % 8);
+            // a filter built by the real BloomFilter from a random set of server ids (two halves united)
+            let nids = 1 + choose("cfg.byzfilter.ids", 24) as usize;
+            let byz_ids: Vec<ntp_proto::v5::ServerId> = (0..nids).map(|_| ntp_proto::v5::ServerId::new(&mut rand::thread_rng())).collect();
+            let mut fa = ntp_proto::v5::BloomFilter::new();
+            let mut fb = ntp_proto::v5::BloomFilter::new();
+            for (k, id) in byz_ids.iter().enumerate() {
+                if k % 2 == 0 { fa.add_id(id) } else { fb.add_id(id) }
             }
+            let fu = ntp_proto::v5::BloomFilter::union([&fa, &fb].into_iter());
+            check!(
+                "C34",
+                "no-false-negative-for-added-id",
+                byz_ids.iter().all(|id| fu.contains_id(id)) && byz_ids.iter().enumerate().all(|(k, id)| if k % 2 == 0 { fa.contains_id(id) } else { fb.contains_id(id) }),
+                "a filter built from {nids} ids does not report one of them"
+            );
+            let byz_filter = *fu.as_bytes();
             let pps = if matches!(role, Role::Daemon) && !is_root && !clean && chance("cfg.pps", 0.08) { Some(ClockId::new()) } else { None };
+            let role_is_byz = matches!(role, Role::Byzantine(_));
             ev!("cfg node{i} addr={addr} role={} local_stratum={local_stratum} ips={} pps={}", match &role { Role::Daemon => "daemon".to_string(), Role::Byzantine(b) => format!("{b:?}"), Role::Absent => "absent".into() }, ips.len(), pps.is_some());
             nodes.push(Node {
                 idx: i,
@@ -601,8 +640,9 @@ pub fn run_daemon() {
                 pps,
                 pref: 0,
                 next_tick: choose("cfg.tickphase", 1000) * 1_000_000,
-                filters: vec![[0u8; 512]],
+                filters: if matches!(role_is_byz, true) { vec![byz_filter] } else { vec![[0u8; 512]] },
                 byz_filter,
+                byz_ids,
                 last_logged: (0, [0; 4]),
                 ticks: 0,
             });
